@@ -156,7 +156,8 @@ def run(ctx: Ctx) -> None:
     ctx.extra["grid_size"] = len(g)
     if not ctx.thorough:
         # every quick run contains the late-finish histories (an abandoned stream whose application ends later must not prolong idleness)
-        must = [c for c in g if c["key"][0] in ("h2_rst_late_finish", "h1_reset_late_finish", "h2_prior_slow", "h2_prior_preface_then_slow", "h2_slow", "h2_prior_late_preface", "h2c_slow", "h2c_then_get")
+        must = [c for c in g if c["key"][0] in ("h2_rst_late_finish", "h1_reset_late_finish", "h2_prior_slow", "h2_prior_preface_then_slow", "h2_slow", "h2_prior_late_preface", "h2c_slow", "h2c_then_get",
+                                                "pipelined_abandoned")
                 and c["key"][4] == 1 and c["key"][2] == 1 + EPS and c["key"][3] is None]
         # … and the partial pipelined heads: the pause (T + eps) follows the partial head, which arrived while the first request was
         # being answered; every cut point, the two arrival variants alternating
